@@ -170,6 +170,48 @@ def _reject_normal_form(fi: FuncInfo, loop: ast.For) -> frozenset:
     return frozenset(out)
 
 
+def _digest_of_raw_bytes(run: Run) -> None:
+    """R19.5b: `the cache file's bytes hash to that digest` - the digest function hashes the bytes as they are on disk"""
+    hm = run.project.mod("core.hydrator")
+    fi = hm.func("compute_vocabulary_hash")
+    # binary handles on the parameter
+    p0 = fi.node.args.args[0].arg  # type: ignore[attr-defined]
+    handles = set()
+    for n in walk_no_nested(fi.node):
+        if isinstance(n, ast.withitem) and isinstance(n.optional_vars, ast.Name) and isinstance(n.context_expr, ast.Call):
+            c = n.context_expr
+            mode = fsm.open_mode(c, 1) if ast.unparse(c.func) in ("open", "io.open") else (fsm.open_mode(c, 0) if isinstance(c.func, ast.Attribute) and c.func.attr == "open" else None)
+            if mode is not None and "b" in mode and p0 in names_in(c):
+                handles.add(n.optional_vars.id)
+    updates = [c for c in walk_no_nested(fi.node) if isinstance(c, ast.Call) and isinstance(c.func, ast.Attribute) and c.func.attr == "update" and len(c.args) == 1]
+    direct = [c for c in walk_no_nested(fi.node) if isinstance(c, ast.Call) and ast.unparse(c.func) in ("hashlib.sha256", "sha256") and c.args]
+    if not handles or not (updates or direct):
+        raise AnalysisError("compute_vocabulary_hash: binary open of the file / hasher.update(...) not found; what is hashed is not decided")
+
+    def raw(e: ast.AST, depth: int = 0) -> bool:
+        """the expression is what <handle>.read(..) returned, or <path>.read_bytes(), unchanged"""
+        if isinstance(e, ast.Call) and isinstance(e.func, ast.Attribute) and e.func.attr == "read" and isinstance(e.func.value, ast.Name) and e.func.value.id in handles:
+            return True
+        if isinstance(e, ast.Call) and isinstance(e.func, ast.Attribute) and e.func.attr == "read_bytes" and p0 in names_in(e.func.value):
+            return True
+        if isinstance(e, ast.NamedExpr):
+            return raw(e.value, depth)
+        if isinstance(e, ast.Name) and depth < 3:
+            defs = [a.value for a in walk_no_nested(fi.node) if isinstance(a, (ast.Assign, ast.NamedExpr)) and any(isinstance(t, ast.Name) and t.id == e.id for t in (a.targets if isinstance(a, ast.Assign) else [a.target]))]
+            defs += [a.value for a in walk_no_nested(fi.node) if isinstance(a, ast.Assign) and any(isinstance(t, ast.Tuple) and any(isinstance(x, ast.Name) and x.id == e.id for x in t.elts) for t in a.targets)]
+            fors = [f for f in walk_no_nested(fi.node) if isinstance(f, ast.For) and any(isinstance(x, ast.Name) and x.id == e.id for x in ast.walk(f.target))]
+            if fors:
+                return all(isinstance(f.iter, ast.Call) and ast.unparse(f.iter.func) == "iter" and f.iter.args and isinstance(f.iter.args[0], ast.Lambda) and raw(f.iter.args[0].body, depth + 1) for f in fors) and not defs
+            return bool(defs) and all(raw(d, depth + 1) for d in defs)
+        return False
+
+    for c in updates + direct:
+        ok = raw(c.args[0])
+        run.instance("R19.5", hm.loc(c), f"compute_vocabulary_hash: `{norm(c)[:70]}` hashes the bytes read from the file unchanged", ok=ok)
+        if not ok:
+            run.violation("R19.5", hm, fi.qualname, c, f"the digest is taken over `{norm(c.args[0])[:70]}`, not over the file's bytes as read: two different files (CRLF / LF, trimmed, re-encoded) have the same digest, so a frozen@sha256 reference resolves to a cache file whose bytes do not hash to that digest")
+
+
 def check_strip_with_word(run: Run, rule: str, scope: tuple[str, ...] = ("schemas.loader", "core.hydrator", "core.file_ops", "mcp.write", "mcp.validate", "mcp.eject", "mcp.base_tool", "cli.main", "core.schema_extractor")) -> None:
     """str.strip / lstrip / rstrip take a SET of characters, not an affix"""
     run.rule(rule, "a name is never shortened with strip()/lstrip()/rstrip() of a multi-character word: those take a set of characters, so rstrip('_SCHEMA') also eats the tail of SKILLS, CHEMA, DEBATE_TRANSCRIPTS - two different schema names / paths then select the same file; an affix is removed with removeprefix/removesuffix or a slice under startswith/endswith", 1)
@@ -211,6 +253,7 @@ def check(run: Run) -> None:
     _r19_6(run, res)
     _r19_7(run, res)
     check_strip_with_word(run, "R19.9")
+    _digest_of_raw_bytes(run)
     check_no_path_rewrite(run)
 
 
